@@ -23,6 +23,7 @@ python3 lib/xlate_field.py --table2 /repo /verif/coq/Gen/GenField2.v || true
 python3 lib/xlate_field.py --table3 /repo /verif/coq/Gen/GenField3.v || true
 python3 lib/xlate_limb.py /repo /verif/coq/GenLimb/GenLimb.v || true
 python3 lib/xlate_limb.py --derive /repo /verif/coq/GenLimb/GenDerive.v || true
+python3 lib/xlate_serde.py /repo /verif/coq/GenSer/GenSer.v || true
 ( cd coq && timeout 7000 make -j16 -k ) || echo 'setup: some Coq targets failed (each check reports its own)'
 for f in coq/Extract/Extract*.v; do
   id=$(basename "$f" .v | sed 's/^Extract//')
